@@ -2,7 +2,7 @@
    check: one operation in, new state and a list of output values out.  The
    OCaml driver (harness/mdrv.ml) only parses script lines and prints values. *)
 From Coq Require Import NArith ZArith List Bool.
-From Srtp Require Import Util Constants KeyLimit Rdb Rdbx Icm World Stream Rtp Rtcp Session.
+From Srtp Require Import Util Constants KeyLimit Rdb Rdbx Icm World Stream Rtp Rtcp Aead Session.
 From Srtp.Crypto Require Import AES SHA1 HMAC.
 From Srtp.Spec Require Rfc3711.
 From Srtp Require BitvecModel EqualModel Sha1Model HmacModel WipeModel.
@@ -150,8 +150,10 @@ Definition packet_op (m : mstate) (kind : Z) (a : list Z) (b : list bytes) : mst
       else take (zn cap) (pkt ++ repeat 51%N (zn (cap - len))) in
     let bf := {| b_src := (if mode =? 0 then [] else pkt); b_dst := dst0; b_alias := (mode =? 0);
                  b_len := len; b_cap := cap; b_oob := false |} in
-    let act := if kind =? 0 then protect mki_index else if kind =? 1 then unprotect
-               else if kind =? 2 then protect_rtcp mki_index else unprotect_rtcp in
+    (* the four API functions incl. their AEAD dispatch (Aead.v); without a GCM-capable back end these ARE
+       protect / unprotect / protect_rtcp / unprotect_rtcp *)
+    let act := if kind =? 0 then protect_any mki_index else if kind =? 1 then unprotect_any
+               else if kind =? 2 then protect_rtcp_any mki_index else unprotect_rtcp_any in
     let '(w, r) := act (mk_world s bf (ms_heap m)) in
     let m' := set_ses m (assoc_set (ms_ses m) sid (w_s w)) (w_h w) in
     let st := if b_oob (w_b w) then st_model_oob else status_of r in
@@ -312,7 +314,7 @@ Definition run_api (m : mstate) (code : Z) (a : list Z) (b : list bytes) : mstat
     | None => (m, [])
     | Some p =>
       let one (km : bytes * bytes) : list outv :=
-        match derive_keys p (fst km) (snd km) with
+        match derive_keys_any p (fst km) (snd km) with
         | (_, Some d) =>
           let k := d_keys d in
           let ckey_secret (c : ckey) := take (zn (ck_klen c - SRTP_SALT_LEN_c)) (concat (ck_rks c)) in
